@@ -3,6 +3,8 @@
 use crate::gram::load_str;
 use crate::modgen::{as_loaded, wrap, Gen, ModCfg};
 use crate::refgraph::{edges, visit_refs, Ns};
+use a2lfile::A2lObjectName as _;
+use a2lfile::A2lObjectNameSetter as _;
 use a2lfile::{A2lError, A2lFile};
 use vcommon::docgen::DocGen;
 use vcommon::grammar::Grammar;
@@ -35,6 +37,58 @@ fn monitored_check(rec: &mut Recorder, a2l: &A2lFile, origin: &str) -> Option<Ve
     }
 }
 
+/// true if a list of the module holds two items of one name (then a lookup by name depends on
+/// the order of the list, and so does the report)
+fn has_duplicate_names(a2l: &A2lFile) -> bool {
+    macro_rules! dup {
+        ($m:expr, $($l:ident),*) => { $( {
+            let mut seen = std::collections::HashSet::new();
+            if !$m.$l.iter().all(|x| seen.insert(x.get_name().to_string())) { return true; }
+        } )* };
+    }
+    for m in a2l.project.module.iter() {
+        dup!(m, measurement, characteristic, axis_pts, instance, blob, compu_method, compu_tab, compu_vtab, compu_vtab_range, record_layout, unit, group, function,
+            typedef_axis, typedef_blob, typedef_characteristic, typedef_measurement, typedef_structure, frame, transformer);
+        // objects share one namespace
+        let mut seen = std::collections::HashSet::new();
+        let names = m.measurement.iter().map(|x| x.get_name()).chain(m.characteristic.iter().map(|x| x.get_name())).chain(m.axis_pts.iter().map(|x| x.get_name())).chain(m.instance.iter().map(|x| x.get_name())).chain(m.blob.iter().map(|x| x.get_name()));
+        for n in names {
+            if !seen.insert(n.to_string()) {
+                return true;
+            }
+        }
+    }
+    false
+}
+
+/// the report must not depend on the order of the lists: check(sort(M)) == check(M) as multisets
+fn sort_invariance(rec: &mut Recorder, a2l: &A2lFile, report: &[A2lError], origin: &str) {
+    if has_duplicate_names(a2l) {
+        rec.bump("sort_invariance.skipped_duplicate_names");
+        return;
+    }
+    let mut sorted = a2l.clone();
+    sorted.sort();
+    rec.bump("sort_invariance.compared");
+    if !report.is_empty() {
+        rec.bump("sort_invariance.compared_nonempty_reports");
+    }
+    let Some(rep2) = monitored_check(rec, &sorted, &format!("{origin}, sorted")) else { return };
+    let mut a: Vec<String> = report.iter().map(describe).collect();
+    let mut b: Vec<String> = rep2.iter().map(describe).collect();
+    a.sort();
+    b.sort();
+    if a != b {
+        let only_a: Vec<&String> = a.iter().filter(|x| !b.contains(x)).take(2).collect();
+        let only_b: Vec<&String> = b.iter().filter(|x| !a.contains(x)).take(2).collect();
+        rec.violation(
+            "check() reports something else after sort()",
+            &format!("{origin}: {} entries before, {} after sort(); only before: {only_a:?}; only after: {only_b:?}", a.len(), b.len()),
+            witness(a2l, origin),
+        );
+    }
+}
+
 fn describe(e: &A2lError) -> String {
     clip(&e.to_string(), 200)
 }
@@ -61,6 +115,9 @@ pub fn run(args: &Args, rec: &mut Recorder) {
                     rec.bump("totality.grammar_documents");
                     if let Some(rep) = monitored_check(rec, &a2l, "G-doc document") {
                         rec.add("totality.report_entries", rep.len() as u64);
+                        if case % 8 == 0 {
+                            sort_invariance(rec, &a2l, &rep, "G-doc document");
+                        }
                     }
                 }
             }
@@ -73,10 +130,31 @@ pub fn run(args: &Args, rec: &mut Recorder) {
                 let module = Gen::new(rng, cfg).module("odd");
                 let mut a2l = wrap(module);
                 let oddity = odd_mutation(rng, &mut a2l);
+                if rng.coin() {
+                    // make the helpers differ from each other, so that the report depends on which
+                    // RECORD_LAYOUT / COMPU_METHOD a name designates
+                    for md in a2l.project.module.iter_mut() {
+                        for (i, rl) in md.record_layout.iter_mut().enumerate() {
+                            if i % 2 == 1 {
+                                rl.axis_pts_x = None;
+                                rl.fnc_values = None;
+                            }
+                        }
+                        for (i, cm) in md.compu_method.iter_mut().enumerate() {
+                            if i % 2 == 1 {
+                                cm.conversion_type = a2lfile::ConversionType::Linear;
+                                cm.coeffs_linear = Some(a2lfile::CoeffsLinear::new(1000.0, 5.0));
+                            }
+                        }
+                    }
+                    rec.bump("totality.odd.diversified_helpers");
+                }
                 rec.eval();
                 rec.bump(&format!("totality.odd.{oddity}"));
                 rec.nontrivial(a2l.write_to_string().as_bytes());
-                monitored_check(rec, &a2l, &format!("odd module: {oddity}"));
+                if let Some(rep) = monitored_check(rec, &a2l, &format!("odd module: {oddity}")) {
+                    sort_invariance(rec, &a2l, &rep, &format!("odd module: {oddity}"));
+                }
                 // also after a load round trip (line numbers present)
                 if let Ok(l) = as_loaded(&a2l) {
                     monitored_check(rec, &l, &format!("odd module (loaded): {oddity}"));
@@ -183,12 +261,101 @@ pub fn run(args: &Args, rec: &mut Recorder) {
                         );
                     }
                 }
+                // (d) the THIS. convention with several containing structures: the component must exist
+                // in every structure that contains the typedef; renaming it in one of them leaves the
+                // reference dangling there
+                {
+                    let m = &a2l.project.module[0];
+                    let this_users: Vec<(String, String)> = m
+                        .typedef_characteristic
+                        .iter()
+                        .flat_map(|t| {
+                            t.axis_descr.iter().filter_map(move |ad| {
+                                let r = ad.axis_pts_ref.as_ref().map(|x| x.axis_points.clone()).or_else(|| ad.curve_axis_ref.as_ref().map(|x| x.curve_axis.clone()))?;
+                                r.strip_prefix("THIS.").map(|c| (t.get_name().to_string(), c.to_string()))
+                            })
+                        })
+                        .collect();
+                    for (td, comp) in this_users {
+                        let containing: Vec<usize> = m
+                            .typedef_structure
+                            .iter()
+                            .enumerate()
+                            .filter(|(_, s)| s.structure_component.iter().any(|c| c.component_type == td))
+                            .map(|(i, _)| i)
+                            .collect();
+                        if containing.is_empty() {
+                            continue;
+                        }
+                        let mut base = a2l.clone();
+                        let mut containing = containing;
+                        if containing.len() < 2 {
+                            // a second structure with the same components
+                            let mut twin = base.project.module[0].typedef_structure[containing[0]].clone();
+                            twin.set_name("zz_second_structure".to_string());
+                            base.project.module[0].typedef_structure.push(twin);
+                            containing.push(base.project.module[0].typedef_structure.len() - 1);
+                            let Some(rep) = monitored_check(rec, &base, "consistent module with a second structure") else { continue };
+                            if !rep.is_empty() {
+                                rec.violation(
+                                    &format!("consistent module yields a report: {}", crate::gram::err_class(&rep[0])),
+                                    &format!("after adding a copy of a TYPEDEF_STRUCTURE under another name: {} entries, first: {}", rep.len(), describe(&rep[0])),
+                                    witness(&base, "fully consistent module"),
+                                );
+                                continue;
+                            }
+                        }
+                        let victim = *rng.pick(&containing);
+                        let mut b = base.clone();
+                        let mut renamed = false;
+                        let comps = &mut b.project.module[0].typedef_structure[victim].structure_component;
+                        let found = comps.iter().position(|c| c.get_name() == comp);
+                        if let Some(ci) = found {
+                            comps.rename_item(ci, "zz_renamed_component");
+                            renamed = true;
+                        }
+                        if !renamed {
+                            continue;
+                        }
+                        rec.eval();
+                        rec.bump("corrupted.THIS_component_renamed_in_one_of_several_structures");
+                        let Some(rep) = monitored_check(rec, &b, "component renamed in one structure") else { continue };
+                        let named = rep.iter().any(|r| matches!(r, A2lError::CrossReferenceError { target_name, .. } if target_name == &comp || target_name == &format!("THIS.{comp}")));
+                        if !named {
+                            rec.violation(
+                                "THIS.<component> that is missing in one of several containing structures is not reported",
+                                &format!("TYPEDEF_CHARACTERISTIC {td} refers to THIS.{comp}; the component was renamed in structure #{victim} of {} containing structures; report: {:?}", containing.len(), rep.iter().take(3).map(describe).collect::<Vec<_>>()),
+                                witness(&b, ""),
+                            );
+                        }
+                        break;
+                    }
+                }
+                // (e) sorting does not change what the check sees
+                if case % 3 == 0 {
+                    let mut sorted = a2l.clone();
+                    sorted.sort();
+                    rec.eval();
+                    rec.bump("consistent_modules_after_sort");
+                    if let Some(rep) = monitored_check(rec, &sorted, "consistent module after sort()") {
+                        if !rep.is_empty() {
+                            rec.violation(
+                                &format!("consistent module yields a report after sort(): {}", crate::gram::err_class(&rep[0])),
+                                &format!("{} entries, first: {}", rep.len(), describe(&rep[0])),
+                                witness(&sorted, "fully consistent module, sorted"),
+                            );
+                        }
+                    }
+                }
                 let _ = Ns::Obj;
             }
         }
         None
     });
     rec.floor("consistent_modules", 10);
+    rec.floor("consistent_modules_after_sort", 5);
+    rec.floor("sort_invariance.compared_nonempty_reports", 5);
+    rec.floor("corrupted.THIS_component_renamed_in_one_of_several_structures", 3);
     rec.floor("totality.grammar_documents", 10);
     rec.floor("totality.odd.many_axis_descr", 1);
     rec.floor("totality.odd.duplicate_names", 1);
